@@ -206,7 +206,7 @@ func runSchedule(b wbehaviour) (wresult, error) {
 
 	nextGate := map[string]string{ // gate reached after releasing the key
 		"snap.begin": "snap.tmp_written", "snap.tmp_written": "snap.renamed", "snap.renamed": "snap.truncated",
-		"snap.truncated": "snap.ended", "rw.begin": "rw.captured", "rw.captured": "rw.replaced", "rw.replaced": "rw.ended",
+		"snap.truncated": "", "rw.begin": "rw.captured", "rw.captured": "rw.replaced", "rw.replaced": "",
 	}
 	advanceAdmin := func(expectAt string) error {
 		if !adminLive || adminStage != expectAt {
@@ -215,6 +215,17 @@ func runSchedule(b wbehaviour) (wresult, error) {
 		}
 		s.releaseKey(adminStage)
 		nxt := nextGate[adminStage]
+		if nxt == "" {
+			// last phase (end of snapshot mode + re-append by the writer): the procedure runs to completion
+			select {
+			case <-adminDone:
+			case <-time.After(stepTimeout):
+				return fmt.Errorf("admin procedure did not finish")
+			}
+			adminLive = false
+			r.Forced++
+			return nil
+		}
 		reached, finished, err := waitReachedOrDone(s, nxt, adminDone)
 		if err != nil {
 			return err
@@ -276,10 +287,10 @@ func runSchedule(b wbehaviour) (wresult, error) {
 			adminDone = make(chan error, 1)
 			reappendReleased = false
 			if adminKind == "snap" {
-				s.arm("snap.begin", "snap.tmp_written", "snap.renamed", "snap.truncated", "snap.ended")
+				s.arm("snap.begin", "snap.tmp_written", "snap.renamed", "snap.truncated")
 				go func() { adminDone <- e.SaveSnapshot() }()
 			} else {
-				s.arm("rw.begin", "rw.captured", "rw.replaced", "rw.ended")
+				s.arm("rw.begin", "rw.captured", "rw.replaced")
 				go func() { adminDone <- e.RewriteAOF() }()
 			}
 			reached, finished, err := waitReachedOrDone(s, adminKind+".begin", adminDone)
@@ -347,7 +358,7 @@ func runSchedule(b wbehaviour) (wresult, error) {
 				// Close is waiting for something the schedule still holds; carry on
 			}
 			r.Forced++
-		case "W_Recv", "W_Tick":
+		case "W_Recv", "W_Tick", "W_Dead":
 			// internal to the writer goroutine: not controllable, left to the real scheduler
 			time.Sleep(200 * time.Microsecond)
 		default:
